@@ -143,6 +143,12 @@ func (vc *VC) callStaticInner(fr *Frame, st *State, callee *ssa.Function, closur
 			return vc.externalCall(fr, st, full, callee.Signature, args, argVals)
 		}
 		nf := vc.newFrame(callee, fr.depth+1)
+		nf.paramProv = map[string]string{}
+		for i, prm := range callee.Params {
+			if i < len(argVals) {
+				nf.paramProv[prm.Name()] = vc.prov(fr, argVals[i])
+			}
+		}
 		if closure != nil {
 			for i, fvv := range callee.FreeVars {
 				b := closure.Bindings[i]
@@ -201,6 +207,10 @@ func (vc *VC) externalCall(fr *Frame, st *State, what string, sig *types.Signatu
 		t := sig.Results().At(i).Type()
 		res[i] = vc.fresh(vc.sortOf(t), "ext")
 		vc.typeFacts(st, res[i], t)
+		if isStringType(t) && len(argVals) > 0 {
+			// an arbitrary string, remembered as a value of the first argument (value-flow clauses)
+			vc.setShape(res[i], shHole("any", vc.prov(fr, argVals[0])))
+		}
 	}
 	return res
 }
@@ -1140,6 +1150,30 @@ func (vc *VC) assumeAfter(fr *Frame, st *State, calleeFn *ssa.Function, args, re
 		vc.fact(st.pc, t)
 		vc.assume("INPUT-DOMAIN (" + vc.fc.Key + ", after " + name + "): " + e)
 	}
+}
+
+// prov: provenance of v in the terms of the function under verification (parameters of inlined callees are
+// replaced by the provenance of the arguments bound to them).
+func (vc *VC) prov(fr *Frame, v ssa.Value) string {
+	p := provenance(v, 0)
+	if fr == nil || fr.paramProv == nil || p == "" {
+		return p
+	}
+	star := ""
+	q := p
+	for strings.HasPrefix(q, "*") {
+		star += "*"
+		q = q[1:]
+	}
+	head := q
+	rest := ""
+	if i := strings.IndexAny(q, ".["); i >= 0 {
+		head, rest = q[:i], q[i:]
+	}
+	if ap, ok := fr.paramProv[head]; ok && ap != "" {
+		return star + strings.TrimPrefix(ap, "*") + rest
+	}
+	return p
 }
 
 // rewriteProv rewrites a provenance path stated over the callee's parameters ("t.TimeOffset",
